@@ -127,6 +127,17 @@ def run_shard(ctx):
             if idx < 40 and ctx.shard == 0:
                 ctx.sample({'phase': list(seq), 'phase_steps': list(STEPS)})
     ctx.count('exhaustive_done')
+    if ctx.shard % 8 == 2:
+        # size-dependent code paths: a very long exactly periodic phase (a wrap every 64 samples, 300 000 samples) ...
+        per = int(gens.pick(rng, [32, 64, 128]))
+        phi = np.tile(np.linspace(0.02, 6.25, per), 300000 // per + 1)[:int(rng.integers(290000, 300000))]
+        check(ctx, phi, 1.5 * np.pi, {'kind': 'long', 'period': per, 'n': len(phi)}, 'very-long')
+        ctx.count('very_long_recordings')
+    if ctx.shard % 8 == 5:
+        # ... and a phase stored in a narrow integer type with more cycles than that type can count (every sample a wrap)
+        phi = np.tile(np.array([0, 6], dtype=np.int16), int(rng.integers(17000, 20000)))
+        check(ctx, phi, 1.5 * np.pi, {'kind': 'int16-many-cycles', 'n': len(phi)}, 'very-long')
+        ctx.count('very_long_recordings')
     n = NRANDOM[ctx.tier] // ctx.nshards
     for i in range(n):
         if ctx.out_of_time():
@@ -176,6 +187,13 @@ def finalize(agg, tier):
 
 def replay(ctx, case):
     from emd import cycles as C
+    if case['kind'] == 'long':
+        phi = np.tile(np.linspace(0.02, 6.25, case['period']), case['n'] // case['period'] + 1)[:case['n']]
+        check(ctx, phi, 1.5 * np.pi, case, 'replay')
+        return
+    if case['kind'] == 'int16-many-cycles':
+        check(ctx, np.tile(np.array([0, 6], dtype=np.int16), case['n'] // 2), 1.5 * np.pi, case, 'replay')
+        return
     P = np.asarray(case['phase'], float)
     if case['kind'] == 'seq':
         check(ctx, P, case['phase_step'], case, 'replay')
